@@ -124,23 +124,4 @@ Proof.
   intros H. unfold skip_if. rewrite <- (layout_is_k k c c' H). destruct (is_k k c); [apply layout_skip1|]; exact H.
 Qed.
 
-(* What is NOT proved here (visible, not assumed anywhere): the parser-level statement.  [insert_nl] is any
-   insertion of comment tokens anywhere and of newline tokens strictly inside ( ... ), [ ... ] of list
-   literals, call argument lists and blob-instantiation braces.  Missing: a simulation argument through all
-   18 step functions of Parser.v that [layout_eq] is preserved (it is for token/skip 1/skip 0/lookahead,
-   above), including the points where skip_newlines is switched back off (pop_skip_newlines), where the
-   relation has to be re-established from the bracket structure of the insertion. *)
-Inductive inserted : bool -> list tok -> list tok -> Prop :=
-| ins_nil b : inserted b [] []
-| ins_keep b t ts ts' : inserted (match t with
-                                  | TK KLeftParen | TK KLeftBracket | TK KLeftBrace => true
-                                  | _ => b
-                                  end) ts ts' -> inserted b (t :: ts) (t :: ts')
-| ins_comment b ts ts' : inserted b ts ts' -> inserted b ts (TComment :: ts')
-| ins_newline ts ts' : inserted true ts ts' -> inserted true ts (TK KNewline :: ts').
-
-Definition nl_in_brackets_statement (T : ptab) : Prop :=
-  forall ts ts' f e c, inserted false ts ts' ->
-    (forall t, In t ts -> t <> TK KFn /\ t <> TK KPu /\ t <> TK KIf /\ t <> TK KCase) ->
-    parse_expression T f ts = Ok (e, c) ->
-    exists g c', parse_expression T g ts' = Ok (e, c') /\ erase true (post c') = erase true (post c).
+(* The parser-level theorem built on these facts is Parse/LayoutSim.v ([nl_in_brackets]). *)
